@@ -50,3 +50,17 @@ Definition batch_bad : bool :=
   && (fst (nth 1 (roff (nth 1 (snd both) (mk_lres [] [] []))) f1) <? 0x1.19799812dea11p-40).   (* beta_2 < 1e-12 *)
 Theorem lanczos_batch_shared_stop_refuted : batch_bad = true.
 Proof. vm_compute. reflexivity. Qed.
+
+(* flag lanczos_start_dtype_cast (and arnoldi_start_dtype_cast): the basis buffer is allocated in the operator's dtype, so a complex
+   start vector on a real operator is stored without its imaginary part; the run is then that of Re(v): its first column is far from
+   v/||v||.  (The cast happens when the buffer is filled, outside the algorithm proper: the model below is the same model applied to
+   the cast vector.) *)
+Definition cast_real (v : cvec) : cvec := map (fun z => (fst z, 0)) v.
+Definition vcplx : cvec := [(1, 2); (2, -1); (0, 3)].
+Definition first_col_err (q : cvec) (v : cvec) : float := vdiff q (fvdiv v (fvnrm v)).
+Definition start_cast_bad (cast : bool) : bool :=
+  let v := if cast then cast_real vcplx else vcplx in
+  let r := lanczos1 (fops 3) (fmv S3) false true 3 v 2 tol7 in
+  0x1p-2 <? first_col_err (nth 0 (rQ r) []) vcplx.
+Theorem lanczos_start_dtype_cast_refuted : start_cast_bad true = true /\ start_cast_bad false = false.
+Proof. split; vm_compute; reflexivity. Qed.
